@@ -222,6 +222,8 @@ func main() {
 		workerMain()
 	case "crashchild":
 		crashChild(os.Args[2:])
+	case "racechild":
+		raceChild(os.Args[2:])
 	case "exec":
 		// in-process, for replay: prints "id impl oracle"
 		data, err := os.ReadFile(os.Args[2])
